@@ -7,7 +7,7 @@ TARGETS = [("fn", "menelaus.detector:StreamingDetector._validate_X"), ("fn", "me
            ("fn", FM + "FeatureShiftInjector.__call__"), ("fn", FM + "FeatureSwapInjector.__call__"),
            ("fn", LM + "LabelSwapInjector.__call__"), ("fn", LM + "LabelJoinInjector.__call__"),
            ("fn", NZ + "BrownianNoiseInjector.__call__"), ("fn", LM + "LabelProbabilityInjector.__call__"),
-           ("fn", LM + "LabelDirichletInjector.__call__")]
+           ("fn", LM + "LabelDirichletInjector.__call__"), ("fn", "menelaus.data_drift.nndvi:NNDVI.set_reference")]
 LEVEL = "exploration"
 LEVEL_TEXT = ("Deductive part: the ownership clause fresh(result) of both _validate_X functions (every detector stores only "
               "what validation hands out) is proved on every run under the aliasing model of numpy/pandas; for seven injectors "
